@@ -9,4 +9,8 @@ theorem engine_sync_tie :
     Const.BAB_SYNC_OPS = Eng3.syncOps ∧ Const.BAB_SYNC_OTHER = [] ∧ Const.BAB_SHARED_TYPES = Eng3.sharedTypes :=
   Eng3.sync_tie
 
+/-- `caobab::solve` hands the engine exactly `run_bab_node` on the precomputed problem (see
+    Engine/SyncTie.lean) -/
+theorem solve_wiring_tie : Const.CAOBAB_SOLVE_WIRING = Eng3.solveWiring := Eng3.solve_wiring_tie
+
 end Props
